@@ -10,9 +10,11 @@ META = {
     "id": "C14",
     "engine": "shard",
     "design_ref": "5/C14",
-    "coq_targets": ["Props/Properties_C14.vo", "Shard/ROModeCheck.vo"],
-    "coq_files": ["Gen/ShardModeConsts.v", "Shard/ROMode.v", "Shard/ROModeProofs.v", "Shard/ROModeCheck.v", "Props/Properties_C14.v"],
-    "theorems": ["C14_state_unchanged", "C14_results", "C14_modifying_rejected"],
+    "coq_targets": ["Props/Properties_C14.vo", "Props/Properties_C14s.vo", "Shard/ROModeCheck.vo"],
+    "coq_files": ["Gen/ShardModeConsts.v", "Shard/ROMode.v", "Shard/ROModeProofs.v", "Shard/ROModeCheck.v", "Props/Properties_C14.v",
+                  "Prog/IR.v", "Prog/IRProofs.v", "Prog/Tables_C14.v", "Props/Properties_C14s.v"],
+    "theorems": ["C14_state_unchanged", "C14_results", "C14_modifying_rejected", "C14_static", "C14_read_only_no_mutation"],
+    "prop_modules": ["Props.Properties_C14", "Props.Properties_C14s"],
     "technique": "Coq proof (case analysis on the operation, induction on the operation list) about a transcription of the mode guard at the head "
                  "of every modifying shard operation and background job, parametric in the persisted state; tied to the Go code by running random "
                  "operation sequences on real shards switched to each read-only mode and comparing result classes and a SHA-256 snapshot of every "
@@ -22,7 +24,11 @@ META = {
                   "write-cache, and every finite sequence of the 14 operations/jobs, the persisted state after the sequence equals the state "
                   "before. C14_results: each modifying request answers ErrReadOnlyMode/ErrDegradedMode (FlushWriteCache without write-cache: "
                   "'disabled'), jobs return untouched, Get/Exists/Dump run, List needs the metabase.",
-    "level_note": "The model Shard/ROMode.v is the table of mode guards (what each Go function checks before touching a component); the proof shows "
+    "level_note": "Static part (added by the lead): the handler IR of package shard is regenerated from the source by xlate on every run "
+                  "(coq/Gen/Prog_Shard.v); C14_static (vm_compute) + the soundness theorem of the dominance analysis give C14_read_only_no_mutation: in every "
+                  "function of the package every mutating call on metabase/blobstor/write-cache is dominated by a mode check of an accepted shape, and every "
+                  "component call is classified (a new component method makes the obligation fail until classified). "
+                  "The model Shard/ROMode.v is the table of mode guards (what each Go function checks before touching a component); the proof shows "
                   "that no guard lets a modifying operation through in a read-only mode. Modelled, not verified: that nothing below the guard "
                   "writes when the guard refuses, and that read paths do not write (component internals: bbolt opened read-only, fstree, "
                   "write-cache flush loop) -- this is exactly what the on-disk snapshot comparison observes on the real shard on every run. "
@@ -35,7 +41,26 @@ META = {
 }
 
 
+def regen_static(ctx):
+    xl = vlib.xlate_build()
+    rc, o, e = vlib.sh([xl, "-dir", "shard=" + os.path.join(vlib.REPO, "pkg/local_object_storage/shard"), "-guards", "ReadOnly$",
+                        "-condguard", r"ModeNotReadWrite=^s\.info\.Mode != mode\.ReadWrite$",
+                        "-out", os.path.join(vlib.COQ, "Gen", "Prog_Shard.v")])
+    if rc != 0:
+        ctx.notes.append("xlate failed: " + e[-2000:])
+    ctx.tie(rc == 0)
+    return rc == 0
+
+
+def diagnose_static(ctx):
+    vlib.coq_make(["Gen/Prog_Shard.vo", "Prog/Tables_C14.vo"])
+    rc, out = ctx.coq_run("diag", "From Coq Require Import String List Bool. Import ListNotations.\nFrom NV Require Import Prog.IR Prog.Tables_C14.\nFrom NV Require Gen.Prog_Shard.\n"
+                          "Eval vm_compute in (c14_bad Gen.Prog_Shard.funcs, c14_bad_shapes Gen.Prog_Shard.funcs, c14_unclassified Gen.Prog_Shard.funcs).\n")
+    ctx.notes.append("static obligation diagnosis (functions with an unguarded mutating call, checks of unaccepted shape, unclassified component calls): " + " ".join(out.split())[:2500])
+
+
 def run(ctx):
+    static_ok = regen_static(ctx)
     binp = ctx.go_build()
     k = ctx.run_json([binp, "consts"])[0]
     vlib.write_if_changed(os.path.join(vlib.COQ, "Gen", "ShardModeConsts.v"),
@@ -43,6 +68,8 @@ def run(ctx):
                           "From Coq Require Import NArith.\nDefinition mode_read_only_bit : N := %d%%N.\nDefinition mode_degraded_bit : N := %d%%N.\n"
                           % (k["mode_read_only"], k["mode_degraded"]))
     ctx.prove()
+    if static_ok and ctx.proof_ok is False:
+        diagnose_static(ctx)
     model = ctx.model_ready(["Shard/ROModeCheck.vo"])
     n = 40 if ctx.tier == "quick" else 400
     if ctx.replay:
